@@ -160,18 +160,17 @@ ccl_set_diff (int a, int b)
 int
 ccl_set_union (int a, int b)
 {
-    int  d, i;
+    int  d, ch;
 
     /* create new class  */
     d = cclinit();
 
-    /* Add all of a */
-    for (i = 0; i < ccllen[a]; ++i)
-		ccladd (d, ccltbl[cclmap[a] + i]);
-
-    /* Add all of b */
-    for (i = 0; i < ccllen[b]; ++i)
-		ccladd (d, ccltbl[cclmap[b] + i]);
+    /* In order to handle negation, we spin through all possible chars,
+     * adding each char that is in a or in b (as ccl_set_diff does).
+     */
+	for ( ch = 0; ch < ctrl.csize; ++ch )
+        if (ccl_contains (a, ch) || ccl_contains(b, ch))
+            ccladd (d, ch);
 
     /* debug */
     if (0){
